@@ -17,12 +17,16 @@
   Hand-written compositions (real content of the identity theorems): ACOT = atan(1/x) (π/2 at 0),
   ACOTH = ½·log((x+1)/(x−1)), COT = cos/sin, EXP = e ** x, LOG = log x / log b,
   RADIANS = x·(π/180), DEGREES = x·180/π, ATAN2(x, y) = atan2(y, x) with #DIV/0! at the origin,
-  POWER with its NaN test; the other functions call the `math` function of the same name.
+  POWER with its NaN test and its integer-overflow guard (`intPowGuard`: two Python ints whose exact
+  power has at least 1025 bits give #NUM! at once — Python would otherwise compute every digit of
+  it, in time and memory unbounded in the arguments); the other functions call the `math` function
+  of the same name.  The guard constants come from `HotXL.Generated.Power` (regenerated from /repo).
 
   The exact-rational `table` used by `eval` contains only what is exact: ABS.  Everything else
   is reached through the driver op `math NAME value…`.
 -/
 import HotXL.Model.Fn.Common
+import HotXL.Generated.Power
 
 namespace HotXL.Fn.Math
 open HotXL HotXL.Ops HotXL.Fn
@@ -130,6 +134,37 @@ def radians (x : α) : Option α := do
 /-- `DEGREES`: `number * 180 / math.pi` -/
 def degrees (x : α) : Option α := O.div (O.mul x (O.ofRat 180)) O.pi
 
+/-! ## the integer-overflow guard of POWER and PV -/
+
+/-- Python `abs(i).bit_length()`: the number of binary digits of `|i|` (0 for 0) -/
+def bitLength (i : Int) : Nat := if i.natAbs = 0 then 0 else i.natAbs.log2 + 1
+
+/-- `abs(number) > minAbs and power > minPow and (abs(number).bit_length() - less) * power >= bits`
+    on two Python ints (the code has `minAbs = 1`, `minPow = 0`, `less = 1`, `bits = 1024`: the exact
+    power is then at least `2 ** 1024`, beyond every double) -/
+def intPowGuardWith (minAbs minPow less bits : Int) (x y : Int) : Bool :=
+  decide (minAbs < (x.natAbs : Int)) && decide (minPow < y) && decide (bits ≤ ((bitLength x : Int) - less) * y)
+
+/-- the guard of POWER with the constants of the source -/
+def intPowGuard (x y : Int) : Bool :=
+  intPowGuardWith Generated.powerGuardMinAbs Generated.powerGuardMinPow Generated.powerGuardLess Generated.powerGuardBits x y
+
+/-- the guard of POWER on the two arguments as passed: it only fires when BOTH parse to Python ints
+    (`isinstance(x, integer_types)`; a logical counts as the int 0 / 1, integer text as its int) -/
+def powGuardArgs (a b : Value) : Bool :=
+  match parseNumber a, parseNumber b with
+  | .ok (.int x), .ok (.int y) => intPowGuard x y
+  | _, _ => false
+
+/-- the guard of PV on `growth = 1 + rate` and `periods` (both Python ints) with the constants of
+    the source -/
+def pvGuard (rate periods : Num) : Bool :=
+  match rate, periods with
+  | .int r, .int n =>
+    intPowGuardWith Generated.pvGuardMinAbs Generated.pvGuardMinPow Generated.pvGuardLess Generated.pvGuardBits
+      (Generated.pvGrowthOne + r) n
+  | _, _ => false
+
 /-! ## coercion of the arguments (`utils.parse_number`, then the conversion to a float) -/
 
 /-- the float a Python number is converted to by the `math` functions and by mixed arithmetic -/
@@ -205,9 +240,10 @@ def LOG10 : List Value → Except Err α
   | [a] => LOG O [a, .num (.int 10)]
   | _ => .error .error
 
-/-- `POWER(number, power)` -/
+/-- `POWER(number, power)`: the integer-overflow guard (independent of the number type `α`: it looks
+    only at the parsed Python ints), then `number ** power` -/
 def POWER : List Value → Except Err α
-  | [a, b] => bin O (power O) a b
+  | [a, b] => if powGuardArgs a b then .error .num else bin O (power O) a b
   | _ => .error .error
 
 /-- `PI()` -/
@@ -266,16 +302,27 @@ def ABS : Builtin
 /-- does `float(i)` raise OverflowError?  (round-half-even to 53 bits reaches 2^1024) -/
 def intOverflowsFloat (i : Int) : Bool := decide (2 ^ 1024 - 2 ^ 970 ≤ i.natAbs)
 
-/-- `POWER` on two Python ints with a non-negative exponent: the exact int `x ** y`, then
-    `math.isnan(result)` converts it to a float (OverflowError beyond the float range).
-    `none` = not this case. -/
+/-- `x ** n` on Python ints, `n ≥ 0`; equal to `x ^ n` (`intPow_eq` of Lemmas/PowGuard.lean).  The
+    bases 0, 1, −1 are answered without exponentiation: they are the only ones that reach this
+    function with an exponent that is not below the guard's bound (Python answers `1 ** 10**15` at
+    once, and so must the executable model) -/
+def intPow (x : Int) (n : Nat) : Int :=
+  if x = 0 then (if n = 0 then 1 else 0)
+  else if x = 1 then 1
+  else if x = -1 then (if n % 2 = 0 then 1 else -1)
+  else x ^ n
+
+/-- `POWER` on two Python ints with a non-negative exponent: `#NUM!` where the guard fires, else the
+    exact int `x ** y` (below the guard it has fewer than 2048 bits — `power_below_guard_bounded` of
+    Props/C16.lean), then `math.isnan(result)` converts it to a float (OverflowError beyond the
+    float range).  `none` = not this case. -/
 def powerIntExact (a b : Value) : Option (Except Err Int) :=
   match parseNumber a, parseNumber b with
   | .ok (.int x), .ok (.int y) =>
     if y < 0 then none
-    else if 2 ≤ x.natAbs ∧ 1024 ≤ y then some (.error .error)
+    else if intPowGuard x y then some (.error .num)
     else
-      let r := x ^ y.toNat
+      let r := intPow x y.toNat
       some (if intOverflowsFloat r then .error .error else .ok r)
   | _, _ => none
 
